@@ -37,6 +37,9 @@ class SchedWorld(JobWorld, BuildWorld):
         self.script_outputs = {}      # pid -> True/False (wrote stdout)
         self.script_writes_stdout = True
         self.lock_log = []
+        self.fresh_capture = None
+        self.server_state = None
+        self.select_budget = 0
 
     # ---- time: in this exploration a blocking call takes exactly as long as it was asked to (a concrete clock); the symbolic
     # clock of the jobserver obligations (every later instant) stays with C08/C09's client scripts
@@ -56,15 +59,23 @@ class SchedWorld(JobWorld, BuildWorld):
     def tempfile(self, eng, sp):
         c = Opaque('fs::File', {'kind': 'capture', 'size': 0, 'pos': 0, 'n': len(self.captures)})
         self.captures.append(c)
+        self.fresh_capture = c
         return ok(c)
 
     # ---- children: the script's observable outcome is applied when the child exits
     def fork(self, eng, sp):
         r = JobWorld.fork(self, eng, sp)
         pid = self.children[-1]['pid']
-        if self.captures:
-            self.child_capture[pid] = self.captures[-1]
-        self.effect('fork', pid=pid)
+        # a script job (start_self) creates its capture file right before the fork; the other kind of child is redo-unlocked
+        # (start_deps_unlocked), which records its result in its own process
+        cap = getattr(self, 'fresh_capture', None)
+        self.fresh_capture = None
+        kind = 'script' if cap is not None else 'unlocked'
+        if cap is not None:
+            self.child_capture[pid] = cap
+        self.children[-1]['job_kind'] = kind
+        self.log[-1][1]['job_kind'] = kind
+        self.effect('fork', pid=pid, job_kind=kind)
         return r
 
     def child_exit(self, c, forced=False):
@@ -91,6 +102,12 @@ class SchedWorld(JobWorld, BuildWorld):
             self.lock_log.append(('unlock', fid))
             return ok(0)
         if kind == 'F_SETLK':
+            if fid in self.other_locks:
+                o = self.other_locks[fid]
+                o['tries'] = o.get('tries', 0) + 1
+                if o.get('free_at_try') and o['tries'] >= o['free_at_try']:
+                    # the holder has finished by the time of this attempt
+                    self.other_finishes(eng, fid)
             if fid in self.other_locks and self.other_locks[fid].get('race'):
                 # the holder finishes and lets go after this process read the target's row, before it asks for the lock
                 self.other_finishes(eng, fid)
@@ -158,7 +175,7 @@ def rp(name):
 
 
 def setup(eng, targets, keep_going=False, top_level=2, pipe0=1, others0=0, runid=10, should_build=None, max_wakeups=10,
-          prior=None, other_locks=None, sub_target=None, shuffle=False, no_do=(), race=()):
+          prior=None, other_locks=None, sub_target=None, shuffle=False, no_do=(), race=(), deps=(), free_at_try=None):
     """-> (world, server cell, root future = the real builder::run coroutine)"""
     w = SchedWorld(eng, runid, pipe0, others0, adv_budget=(1 if top_level == 0 else 0), allow_steal=(top_level == 0),
                    max_wakeups=max_wakeups)
@@ -174,12 +191,16 @@ def setup(eng, targets, keep_going=False, top_level=2, pipe0=1, others0=0, runid
         if tn not in no_do:
             w.fs[tuple(tn + b'.do')] = tuple(S1)
         w.fs.setdefault(tuple(tn), None)
+    ids = {}
     for name, (cells, fs_t) in (prior or {}).items():
         w.add_file(rid, name, **cells)
+        ids[name] = rid
         w.fs[tuple(name)] = fs_t
         if fs_t is not None:
             w.content[tuple(name)] = 'previous'
         rid += 1
+    for tname, sname, mode in deps:
+        w.deps[(ids[tname], ids[sname])] = {'mode': tuple(mode), 'delete_me': 0}
     w.next_rowid = max(100, rid)
     for name, outcome in (other_locks or {}).items():
         # another redo holds the lock of this target: its row exists already
@@ -190,7 +211,7 @@ def setup(eng, targets, keep_going=False, top_level=2, pipe0=1, others0=0, runid
             fid = w.next_rowid
             w.next_rowid += 1
             w.add_file(fid, name)
-        w.other_locks[fid] = {'outcome': outcome, 'name': name, 'race': name in race}
+        w.other_locks[fid] = {'outcome': outcome, 'name': name, 'race': name in race, 'free_at_try': (free_at_try or {}).get(name)}
     w.db_committed = w.snap_db()
     envover = dict(keep_going=keep_going, shuffle=shuffle, log=0)
     if sub_target is not None:
